@@ -84,6 +84,68 @@ func castShape(plain, casted interface{}, o DecOpt, path string) string {
 	}
 }
 
+// denotes: the value a leaf text stands for under the enabled cast options, written from the
+// documentation of the options (integers first when CastValuesToInt is on, then floats, then
+// the t/f spellings of booleans; NaN/Inf never unless CastNanInf is on), with the real strconv.
+func denotes(s string, o DecOpt) interface{} {
+	if !o.Cast {
+		return s
+	}
+	if o.ToInt {
+		if n, err := strconv.ParseInt(s, 10, 64); err == nil {
+			return n
+		}
+		if n, err := strconv.ParseUint(s, 10, 64); err == nil {
+			return n
+		}
+	}
+	if o.ToFloat {
+		if f, err := strconv.ParseFloat(s, 64); err == nil {
+			if math.IsNaN(f) || math.IsInf(f, 0) {
+				if o.NanInf {
+					return f
+				}
+				return s
+			}
+			return f
+		}
+	}
+	if o.ToBool && s != "1" && s != "0" {
+		if b, err := strconv.ParseBool(s); err == nil {
+			return b
+		}
+	}
+	return s
+}
+
+// castExact: with no skip-tag function set, every string leaf of the un-cast decoding must have
+// become exactly the value its text denotes (castShape alone accepts a leaf left as a string).
+func castExact(plain, casted interface{}, o DecOpt, path string) string {
+	switch p := plain.(type) {
+	case map[string]interface{}:
+		c, _ := casted.(map[string]interface{})
+		for _, k := range sortedKeys(p) {
+			if r := castExact(p[k], c[k], o, path+"."+k); r != "" {
+				return r
+			}
+		}
+	case []interface{}:
+		c, _ := casted.([]interface{})
+		for i := range p {
+			if i < len(c) {
+				if r := castExact(p[i], c[i], o, fmt.Sprintf("%s[%d]", path, i)); r != "" {
+					return r
+				}
+			}
+		}
+	case string:
+		if want := denotes(p, o); enc(want) != enc(casted) {
+			return fmt.Sprintf("leaf %q denotes %T(%v) under the enabled options but was decoded as %T(%v) at %s", p, want, want, casted, casted, path)
+		}
+	}
+	return ""
+}
+
 func onlyStrings(v interface{}, key string) bool {
 	switch x := v.(type) {
 	case map[string]interface{}:
@@ -144,6 +206,9 @@ func c14Exec(op string) string {
 			note = "un-cast decoding produced a non-string leaf"
 		} else if o.Cast {
 			note = castShape(plain, m, o, "")
+			if note == "" && !o.SkipSet {
+				note = castExact(plain, m, o, "")
+			}
 			if note == "" && !o.NanInf {
 				if _, jerr := mxj.Map(m).Json(); jerr != nil {
 					note = "cast-decoded Map cannot be converted to JSON: " + jerr.Error()
@@ -186,6 +251,14 @@ func c14Judge(op, impl, model string) Verdict {
 	v.CorrOK = ip[0] == mp[0]
 	v.Nontrivial = strings.Contains(ip[0], "#") || strings.Contains(ip[0], " t ") || strings.Contains(ip[0], " f ") || strings.HasSuffix(ip[0], " t") || strings.HasSuffix(ip[0], " f")
 	if name == "cast" {
+		c, _ := newCur(op)
+		o := c.decOpt()
+		c.val()
+		s := c.str()
+		if want := "ok " + enc(denotes(s, o)); !o.SkipSet && c.err == nil && ip[0] != want {
+			v.OracleFail = fmt.Sprintf("cast(%q) = %s but the text denotes %s under the enabled options", s, ip[0], want)
+			v.Sig = "cast:denotes"
+		}
 		if strings.Contains(ip[0], "NaN") || strings.Contains(ip[0], "Inf") {
 			c, _ := newCur(op)
 			o := c.decOpt()
@@ -226,7 +299,7 @@ func specialSpellings() []string {
 	return out
 }
 
-var castTexts = []string{"0", "1", "-1", "42", "9223372036854775807", "9223372036854775808", "-9223372036854775808", "-9223372036854775809", "18446744073709551615", "18446744073709551616", "3.5", "-0.25", "1e3", "1E-2", "1e400", "-1e400", "0x1F", "0x1p-2", "1_000", ".5", "5.", "+7", "00", "1e", "--1", "t", "T", "f", "F", "true", "TRUE", "True", "tRuE", "false", "FALSE", "False", "fAlse", "truee", "yes", "no", "", " ", "hello", "1 2", "é", "NaN", "nan", "Inf", "+Inf", "-Inf", "Infinity", "-infinity", "+INFINITY", "iNf", "nAn", "1/2", "٣", "１"}
+var castTexts = []string{"0", "1", "-1", "42", "9223372036854775807", "9223372036854775808", "-9223372036854775808", "-9223372036854775809", "18446744073709551615", "18446744073709551616", "3.5", "-0.25", "1e3", "1E-2", "1e400", "-1e400", "0x1F", "0x1p-2", "1_000", ".5", "5.", "+7", "+9223372036854775807", "-9223372036854775807", "10000000000000000000", "00000000000000000042", "000000000000000000042", "00", "1e", "--1", "t", "T", "f", "F", "true", "TRUE", "True", "tRuE", "false", "FALSE", "False", "fAlse", "truee", "yes", "no", "", " ", "hello", "1 2", "é", "NaN", "nan", "Inf", "+Inf", "-Inf", "Infinity", "-infinity", "+INFINITY", "iNf", "nAn", "1/2", "٣", "１"}
 
 func c14Gen(r *Rng, n int) []string {
 	var ops []string
